@@ -107,6 +107,16 @@ def run_seq(ctx, segs, full):
     s = "http://h/" + joined
     ctx.ev(sig("ctor_auth"))
     verify(ctx, "ctor_auth", {"entry": "ctor_auth", "segs": segs, "s": s}, guarded(URL, s), rfc.remove_dot_segments("/" + lit(joined)), True)
+    # 1b the same under other authority shapes: "has an authority" is not "has a host"
+    for pre in ("//:8080/", "foo://:1/", "file://user@/", "x://u:p@:8/", "https://u:p@[::1]:444/", "//h/", "foo://@h/"):
+        s = pre + joined
+        u = guarded(URL, s)
+        if is_exc(u):
+            continue
+        if not u.raw_authority:
+            continue  # the authority was normalised away entirely (degenerate): no authority, dots stay
+        ctx.ev(sig("ctor_auth_shapes"))
+        verify(ctx, "ctor_auth_shapes", {"entry": "ctor_auth_shapes", "segs": segs, "s": s}, u, rfc.remove_dot_segments("/" + lit(joined)), True)
     # 2 constructor, no authority, rooted  /  3 rootless with scheme-less relative ref
     if not joined.startswith("/"):
         s = "/" + joined
